@@ -193,6 +193,11 @@ func generateHarnesses(repo, prop, dir string) error {
 		fmt.Fprintf(&b, "\tcase *%s:\n\t\ty, ok := b.(*%s)\n\t\tvpAssert(prefix+\"/same-go-type\", ok && y != nil)\n\t\tif ok && y != nil {\n\t\t\tvpDiff_%s(prefix, x, y, skip)\n\t\t}\n", s.Name, s.Name, s.Name)
 	}
 	b.WriteString("\tdefault:\n\t\tvpAssert(prefix+\"/known-type\", false)\n\t}\n}\n\n")
+	b.WriteString("// vpMergeCheck asserts the merge rules field by field: after is old or from; set-in-old/unset-in-from is kept; merged fields set in from win.\nfunc vpMergeCheck(prefix string, after, old, from Item, merged func(string) bool) {\n\tswitch x := after.(type) {\n")
+	for _, s := range vocab {
+		fmt.Fprintf(&b, "\tcase *%s:\n\t\to, ok1 := old.(*%s)\n\t\tf, ok2 := from.(*%s)\n\t\tvpAssert(prefix+\"/same-go-type\", ok1 && ok2)\n\t\tif ok1 && ok2 {\n\t\t\tvpMerge_%s(prefix, x, o, f, merged)\n\t\t}\n", s.Name, s.Name, s.Name, s.Name)
+	}
+	b.WriteString("\tdefault:\n\t\tvpAssert(prefix+\"/known-type\", false)\n\t}\n}\n\n")
 	b.WriteString("// vpCloneItem makes a shallow copy of a vocabulary struct behind a pointer.\nfunc vpCloneItem(a Item) Item {\n\tswitch x := a.(type) {\n")
 	for _, s := range vocab {
 		fmt.Fprintf(&b, "\tcase *%s:\n\t\tc := *x\n\t\treturn &c\n", s.Name)
@@ -228,6 +233,17 @@ func generateHarnesses(repo, prop, dir string) error {
 			fmt.Fprintf(&b, "\tif skip == nil || !skip(%q) {\n\t\tvpAssert(prefix+\"/%s\", vpEq_%s(a.%s, b.%s))\n\t}\n", f.Name, f.Name, f.Kind, f.Name, f.Name)
 		}
 		b.WriteString("}\n\n")
+		fmt.Fprintf(&b, "func vpMerge_%s(prefix string, after, old, from *%s, merged func(string) bool) {\n", s.Name, s.Name)
+		for _, f := range s.Fields {
+			if f.Name == "ID" || f.Name == "Type" {
+				fmt.Fprintf(&b, "\tvpAssert(prefix+\"/takes-from/%s\", vpEq_%s(after.%s, from.%s))\n", f.Name, f.Kind, f.Name, f.Name)
+				continue
+			}
+			fmt.Fprintf(&b, "\tvpAssert(prefix+\"/old-or-new/%s\", vpEq_%s(after.%s, old.%s) || vpEq_%s(after.%s, from.%s))\n", f.Name, f.Kind, f.Name, f.Name, f.Kind, f.Name, f.Name)
+			fmt.Fprintf(&b, "\tif !vpZero_%s(old.%s) && vpZero_%s(from.%s) {\n\t\tvpAssert(prefix+\"/not-lost/%s\", vpEq_%s(after.%s, old.%s))\n\t}\n", f.Kind, f.Name, f.Kind, f.Name, f.Name, f.Kind, f.Name, f.Name)
+			fmt.Fprintf(&b, "\tif merged(%q) && !vpZero_%s(from.%s) {\n\t\tvpAssert(prefix+\"/from-wins/%s\", vpEq_%s(after.%s, from.%s))\n\t}\n", f.Name, f.Kind, f.Name, f.Name, f.Kind, f.Name, f.Name)
+		}
+		b.WriteString("}\n\n")
 		fmt.Fprintf(&b, "func vpSet_%s(x *%s, field, shape int, tag byte) {\n\tswitch field {\n", s.Name, s.Name)
 		for i, f := range s.Fields {
 			fmt.Fprintf(&b, "\tcase %d:\n\t\tx.%s = vpMk_%s(shape, tag)\n", i, f.Name, f.Kind)
@@ -239,6 +255,16 @@ func generateHarnesses(repo, prop, dir string) error {
 		}
 		b.WriteString("\t}\n\treturn true\n}\n\n")
 	}
+	// exported functions and methods that accept an item
+	names, err := scanItemFuncs(repo)
+	if err != nil {
+		return err
+	}
+	b.WriteString("// vpItemFuncs: every exported function or method of the current tree with an Item/LinkOrIRI parameter.\nvar vpItemFuncs = []string{\n")
+	for _, n := range names {
+		fmt.Fprintf(&b, "\t%q,\n", n)
+	}
+	b.WriteString("}\n\n")
 	if err := os.WriteFile(filepath.Join(dir, "gen.go"), b.Bytes(), 0o644); err != nil {
 		return err
 	}
@@ -253,3 +279,57 @@ var generators = map[string]func(repo, dir string, vocab []genStruct) error{}
 // shapesOfKind: number of value shapes the harness library offers for a field kind.
 var shapesOfKind = map[string]int{"IRI": 1, "Type": 0, "NLV": 3, "Item": 7, "Items": 3, "Time": 3, "Duration": 3, "Mime": 1, "Source": 2,
 	"Uint": 1, "Float": 3, "String": 1, "Int": 2, "Bool": 1, "PublicKey": 1, "LangRef": 1, "Endpoints": 1, "Unknown": 0}
+
+func funcTypeString(e ast.Expr) string {
+	switch x := e.(type) {
+	case *ast.Ellipsis:
+		return "..." + exprString(x.Elt)
+	case *ast.FuncType:
+		return "func"
+	case *ast.IndexExpr:
+		return exprString(x.X)
+	}
+	return exprString(e)
+}
+
+// scanItemFuncs lists exported functions/methods with a parameter of type Item, LinkOrIRI, ObjectOrLink or ...Item.
+func scanItemFuncs(repo string) ([]string, error) {
+	fset := token.NewFileSet()
+	files, err := filepath.Glob(filepath.Join(repo, "*.go"))
+	if err != nil {
+		return nil, err
+	}
+	var out []string
+	for _, f := range files {
+		if strings.HasSuffix(f, "_test.go") || strings.HasPrefix(filepath.Base(f), "zz_vp_") {
+			continue
+		}
+		af, err := parser.ParseFile(fset, f, nil, 0)
+		if err != nil {
+			return nil, err
+		}
+		for _, d := range af.Decls {
+			fd, ok := d.(*ast.FuncDecl)
+			if !ok || !fd.Name.IsExported() {
+				continue
+			}
+			has := false
+			for _, p := range fd.Type.Params.List {
+				switch funcTypeString(p.Type) {
+				case "Item", "LinkOrIRI", "ObjectOrLink", "...Item":
+					has = true
+				}
+			}
+			if !has {
+				continue
+			}
+			name := fd.Name.Name
+			if fd.Recv != nil && len(fd.Recv.List) > 0 {
+				name = "(" + funcTypeString(fd.Recv.List[0].Type) + ")." + name
+			}
+			out = append(out, name)
+		}
+	}
+	sort.Strings(out)
+	return out, nil
+}
